@@ -152,6 +152,9 @@ package types
 //@ nopanic dryrun
 //@ loop 1 invariant i >= 0 && i <= n && len(result) == n && n >= 0 && len(validatorBytes) % 20 == 0 && n == len(validatorBytes) / 20 && n * 20 == len(validatorBytes)
 //@ ensures [count] result1 == nil ==> (len(extra) - 97) % 20 == 0 && len(result0) == (len(extra) - 97) / 20
+// an epoch header carries at least one validator (an empty list would become the validator set and is stored as an empty
+// record that the module's own genesis validation rejects)
+//@ ensures [non-empty] result1 == nil ==> len(result0) >= 1
 
 // accepted header: becomes the head; its (time, height, root) is the consensus state; an epoch header's validator
 // list becomes pending; the validator set changes only to the pending list and only at offset len(V)/2 after the epoch
@@ -205,3 +208,7 @@ package types
 //@ nopanic
 //@ modifies store
 //@ loop 1 forkey rev uint64, h uint64 :: keyRecentSinger(Signer{Height: clienttypes.NewHeight(rev, h)})
+
+// ---- the trusting period is small enough for timestamp + trusting period not to wrap (C18: a created client is active) ----
+// verif:func (ClientState).Validate
+//@ ensures [trusting-period-bounded] result == nil ==> m.TrustingPeriod <= 0x7fffffffffffffff
